@@ -317,6 +317,9 @@ pub fn parse_multi_branch_conditional(
                     if line.had_newline {
                         current_nodes.push(Node::Newline);
                     }
+                } else if line.had_newline {
+                    // the branch content starts on a line of its own
+                    current_nodes.push(Node::Newline);
                 }
                 *line_index += 1;
                 continue;
@@ -403,6 +406,10 @@ pub fn parse_multi_branch_conditional(
                     *line_index += 1;
                 }
             } else {
+                if line.had_newline {
+                    // the branch content starts on a line of its own
+                    current_nodes.push(Node::Newline);
+                }
                 *line_index += 1;
             }
             continue;
